@@ -70,7 +70,8 @@ def open_calls(h, s):
         calls += [{"op": "set_value", "cont": c, "name": "_open.new", "v": one},
                   {"op": "create_loop", "cont": c, "category": "open", "names": ["_open.a", "_open.a"]},
                   {"op": "create_loop", "cont": c, "category": "open", "names": ["_open.b"]},
-                  {"op": "create_frame", "cont": c, "code": "open frame"},
+                  {"op": "create_frame", "cont": c, "code": "open frame"}, {"op": "create_frame", "cont": c, "code": "open.frame"},
+                  {"op": "create_block", "cif": busy[0], "code": "open.block"}, {"op": "prune", "cont": c},
                   {"op": "remove_item", "cont": c, "name": "_open.none"}]
     return [(busy[0], x) for x in calls]
 
